@@ -119,6 +119,7 @@ class H:
         self.errors = []
         from vf.lockmon import LockMon
         self.lockmon = LockMon().install()
+        self.watch_thread_deaths()
 
     def start_hang_monitor(self, acc, spec, limit=12.0):
         """A scheduling call (sched / sched_abs / play / tempo change) that does not
@@ -166,7 +167,32 @@ class H:
                 _os._exit(0)
         threading.Thread(target=monitor, daemon=True, name='vf-hang-monitor').start()
 
+    def watch_thread_deaths(self):
+        """An exception that escapes a clock's thread ends the clock for the
+        rest of the process; threading.excepthook sees it."""
+        self.deaths = []
+        prev = threading.excepthook
+
+        def hook(args):
+            name = getattr(args.thread, 'name', '?') or '?'
+            if name.startswith(('SystemClock', 'AppClock', 'TempoClock')):
+                tb = args.exc_traceback
+                site = '?'
+                while tb is not None:
+                    if 'sc3' in tb.tb_frame.f_code.co_filename:
+                        site = tb.tb_frame.f_code.co_name
+                    tb = tb.tb_next
+                self.deaths.append((name.split(' ')[0], args.exc_type.__name__, site,
+                                    repr(args.exc_value)[:200]))
+            else:
+                prev(args)
+        threading.excepthook = hook
+
     def report_lockmon(self, acc):
+        for ck, exc, site, val in getattr(self, 'deaths', [])[:5]:
+            acc.violation(f'C08/clock-thread-killed-by-exception/{ck}/{exc}@{site}',
+                          {'thread': ck, 'exception': val})
+        acc.count('clock_thread_death_checks')
         acc.count('queue_accesses_lock_checked', self.lockmon.checked)
         self.lockmon.checked = 0
         for (meth, caller), n in sorted(self.lockmon.bad.items()):
@@ -241,7 +267,11 @@ class H:
         if kind == 'tk':
             class Tk:
                 def __init__(self):
-                    self.func = self.body
+                    # any object with __awake__ is a task for sched(); half of
+                    # them look like the library's own (a `func` attribute),
+                    # half are plain user objects
+                    if rec['tid'] % 2 == 0:
+                        self.func = self.body
                     self._clock = None
 
                 def body(self):
